@@ -32,11 +32,8 @@ fn merge(mut a: serde_json::Value, b: serde_json::Value) -> serde_json::Value {
 
 /// M2: replay TLC behaviours. Each vector is a sequence of
 /// {call:{op,..,res/popped}, buf:[..]}; the real buffer must produce the same
-/// results; where the model is nondeterministic (duplicate roll-back target)
-/// the implementation's state must be *one of* the model's successors, which
-/// for a single behaviour means: compare with the model state only if the
-/// implementation's choice coincides; otherwise the behaviour is a sibling
-/// branch and is skipped from that point (counted).
+/// results and the same buffer after every call (the model is deterministic: a
+/// roll-back keeps everything up to the first occurrence of the point).
 pub fn replay(args: &Args) {
     let vecs = read_ndjson(args.get("in"));
     let mut out = Ndjson::create(args.get("out"));
@@ -77,11 +74,8 @@ pub fn replay(args: &Args) {
                 same &= call[key] == *val;
             }
             if !same {
-                // sibling branch of a nondeterministic roll-back? (model kept another occurrence)
-                let dup_branch = jstr(&call["op"]) == "roll_back"
-                    && got.get("res") == call.get("res")
-                    && got_buf.last() == want_buf.last()
-                    && !got_buf.is_empty();
+                // the model is deterministic (first occurrence): any difference is a mismatch
+                let dup_branch = false;
                 if dup_branch {
                     verdict = json!({"i": i, "ok": true, "steps": k, "sibling": true});
                 } else {
